@@ -422,6 +422,15 @@ func (e *Env) flagTest(cond ssa.Value, flags ssa.Value, bit int64) int {
 			return -e.flagTest(x.X, flags, bit)
 		}
 	case *ssa.BinOp:
+		// the constant on the left (`0 < f&bit`, `0 != f&bit`): read as the mirrored comparison
+		if _, leftConst := x.X.(*ssa.Const); leftConst {
+			if _, rightConst := x.Y.(*ssa.Const); !rightConst {
+				mirror := map[token.Token]token.Token{token.LSS: token.GTR, token.GTR: token.LSS, token.LEQ: token.GEQ, token.GEQ: token.LEQ, token.EQL: token.EQL, token.NEQ: token.NEQ}
+				if op, ok := mirror[x.Op]; ok {
+					return e.flagTest(&ssa.BinOp{Op: op, X: x.Y, Y: x.X}, flags, bit)
+				}
+			}
+		}
 		// `f&bit > 0` / `f&bit <= 0` (a positive single bit: the masked value is 0 or the bit) read as != 0 / == 0
 		if (x.Op == token.GTR || x.Op == token.LEQ) && bit > 0 {
 			if c, isC := flow.ConstInt(x.Y); isC && c == 0 {
